@@ -15,5 +15,10 @@ for i in range(0, len(args), 3):
     files[f] = files[f].replace(old, new)
 res = []
 for f in files:
-    res.append("".join(difflib.unified_diff(orig[f].splitlines(True), files[f].splitlines(True), "a/" + f, "b/" + f)))
+    out = []
+    for l in difflib.unified_diff(orig[f].splitlines(True), files[f].splitlines(True), "a/" + f, "b/" + f):
+        if not l.endswith("\n"):
+            l += "\n\\ No newline at end of file\n"
+        out.append(l)
+    res.append("".join(out))
 open(out, "w").write("".join(res))
